@@ -211,18 +211,11 @@ Theorem C09_size_operand_state_independent : forall c v minmax ex,
 Proof. exact compute_size_exmet. Qed.
 Print Assumptions C09_size_operand_state_independent.
 
-(* whole expressions, model vs Spec: the un-parenthesised SEQUENCE SIZE(..,...) OF
-   spelling loses its marker (finding C09-bare-size-marker-lost) and a constraint
-   on a reference to such a type reaches an assert (C09-bare-size-child-assert) *)
-Theorem C09_nested_effective_refuted_bare_size : exists chain,
-  e_empty (nper_effective chain) = false /\
-  nper_size_row TSequenceOf (npullup false chain) = tables_of (nper_effective chain) /\
-  nper_size_row TSequenceOf (npullup true chain) <> tables_of (nper_effective chain).
-Proof. exact bare_size_marker_refuted. Qed.
-Print Assumptions C09_nested_effective_refuted_bare_size.
-
-Theorem C09_bare_size_child_asserts : exists chain,
-  ncompute_top TSequenceOf (npullup true chain) ReqSize VisNone = TAbort /\
-  exists r, ncompute_top TSequenceOf (npullup false chain) ReqSize VisNone = TOk r.
-Proof. exact bare_size_child_asserts. Qed.
-Print Assumptions C09_bare_size_child_asserts.
+(* whole expressions: the un-parenthesised SEQUENCE SIZE(...) OF spelling has the
+   combined constraint of the parenthesised one along every reference chain
+   (was: marker lost, C09-bare-size-marker-lost; assert on a constrained
+   reference, C09-bare-size-child-assert; both repaired in asn1constraint_pullup) *)
+Theorem C09_bare_size_same_as_parenthesised : forall s rest,
+  npullup true ([NRoot (NSize s)] :: rest) = npullup false ([NRoot (NSize s)] :: rest).
+Proof. exact bare_size_same. Qed.
+Print Assumptions C09_bare_size_same_as_parenthesised.
